@@ -3,7 +3,7 @@ import ast
 import re
 
 from ..pymodel import AnalysisError, FuncInfo, parent
-from ..astutil import (canon, canon_src, src, is_name, is_attr, is_const, const_num, call_name, walk_no_nested,
+from ..astutil import (expand_names, canon, canon_src, src, is_name, is_attr, is_const, const_num, call_name, walk_no_nested,
                        strip_docstring, compare_atoms, enclosing_stmt, calls_in, names_in,
                        assignments_to, norm_compare, orient, kwarg)
 from ..cfg import cfg_of, ENTRY, EXIT, RAISE
@@ -76,6 +76,50 @@ def _self_calls(fn, selfn):
     return ev
 
 
+def record_helpers(ctx, rid):
+    """Premise of the balance rule: _append_constraint appends its argument under its key on every path, and
+    _pop_constraint removes the LAST entry under its key (the two are used as push / pop around nested methods)."""
+    P, R = ctx.prog, ctx.res
+    ap = P.func('PCBO._append_constraint')
+    g = cfg_of(ap.node)
+    if len(ap.params) < 3:
+        raise AnalysisError("_append_constraint signature changed: %s" % ap.params)
+    keyp, conp = ap.params[1], ap.params[2]
+    sn = R.self_name(ap)
+    pushes = []
+    for n in g.stmts():
+        for c in calls_in(n):
+            if enclosing_stmt(c) is not n or isinstance(n, (ast.If, ast.While, ast.For, ast.Try, ast.With)):
+                continue
+            if isinstance(c.func, ast.Attribute) and c.func.attr == 'append' and len(c.args) == 1 and is_name(c.args[0], conp):
+                recv = src(expand_names(ap.node, c.func.value))
+                if recv in ('%s._constraints.setdefault(%s, [])' % (sn, keyp), '%s._constraints[%s]' % (sn, keyp)):
+                    pushes.append(n)
+    ok = bool(pushes) and g.must_pass_to_exit(ENTRY, set(pushes))
+    ctx.inst(rid, ap, pushes[0] if pushes else 'append', ok,
+             "every call appends the constraint under its key" if ok else
+             "_append_constraint does not append its argument under its key on every path: the nested constraint "
+             "methods pop one record per delegated call, so a skipped append makes them pop an unrelated constraint "
+             "(and is_solution_valid misses the constraint)")
+    pp = P.func('PCBO._pop_constraint')
+    g2 = cfg_of(pp.node)
+    keyq = pp.params[1]
+    sn2 = R.self_name(pp)
+    pops = [c for n in g2.stmts() for c in calls_in(n) if isinstance(c.func, ast.Attribute) and c.func.attr == 'pop'
+            and src(c.func.value) in ('%s._constraints[%s]' % (sn2, keyq), '%s._constraints.get(%s)' % (sn2, keyq),
+                                      '%s._constraints.get(%s, [])' % (sn2, keyq))]
+    others = [c for n in g2.stmts() for c in calls_in(n) if isinstance(c.func, ast.Attribute)
+              and c.func.attr in ('remove', 'clear', 'popitem', 'insert') and '_constraints' in src(c.func.value)]
+    dels = [n for n in g2.stmts() if isinstance(n, ast.Delete) and '_constraints[%s][' % keyq in src(n)]
+    pops = list({id(c): c for c in pops}.values())
+    others = list({id(c): c for c in others}.values())
+    okp = len(pops) == 1 and (not pops[0].args or (len(pops[0].args) == 1 and const_num(pops[0].args[0]) == -1)) \
+        and not others and not dels
+    ctx.inst(rid, pp, pops[0] if pops else 'pop', okp,
+             "removes the most recent record under the key" if okp else
+             "_pop_constraint does not remove exactly the last record under its key")
+
+
 def record_balance(ctx, rid, fn, rel):
     """Net effect {rel: +1} on every path ENTRY -> EXIT."""
     R = ctx.res
@@ -136,6 +180,7 @@ def rules(ctx):
     arity_guards(ctx, 'R02.17', [P.func('_pcbo._special_constraints_eq_zero'), P.func('_pcbo._special_constraints_le_zero')])
 
     # ---------------------------------------------------------------- R02.1
+    record_helpers(ctx, 'R02.1')
     for rel, fn in meths.items():
         record_balance(ctx, 'R02.1', fn, rel)
 
